@@ -46,18 +46,76 @@ Section Link.
   Qed.
 End Link.
 
-(* the path SimulationMaximumStep returns: 0, the refined jump times, the maturity; every step except the last one is <= eps *)
-Theorem capped_path_inner_steps N eps T times vals : 0 < eps -> eps < T -> times <> [] ->
-  gaps_le (inject_Z (Z.of_nat (S N)) * eps) (combine (gaps times) vals) ->
-  let tv := build_finer_grid 0 N eps T times vals in
-  fst (capped_path N eps T times vals) = assemble_times T (fst tv)
-  /\ snd (capped_path N eps T times vals) = assemble_values (snd tv)
-  /\ Forall (fun g => g <= eps) (gaps (fst tv))
-  /\ exists r, Refines 0 (combine (gaps times) vals) r /\ Forall2 Qeq (gaps (fst tv)) (map fst r) /\ snd tv = map snd r.
+Lemma gaps_total : forall l prev, qsum (gaps_from prev l) == last l prev - prev.
 Proof.
-  intros He HT Hne Hle. cbv zeta. unfold capped_path. destruct times as [|t0 ts]; [congruence|].
-  cbn [fst snd]. split; [reflexivity|]. split; [reflexivity|].
-  apply build_finer_grid_cap; assumption.
+  induction l as [|x r IH]; intro prev; [simpl; ring|].
+  cbn [gaps_from qsum]. rewrite IH. destruct r as [|y r']; [simpl; ring|].
+  change (last (x :: y :: r') prev) with (last (y :: r') prev).
+  rewrite (last_default r' y x prev). ring.
+Qed.
+
+Lemma gaps_from_proper : forall a b p p', Forall2 Qeq a b -> p == p' -> Forall2 Qeq (gaps_from p a) (gaps_from p' b).
+Proof.
+  intros a b p p' H. revert p p'. induction H as [|x y a b E H IH]; intros p p' Ep; [constructor|].
+  cbn [gaps_from]. constructor; [rewrite E, Ep; reflexivity | apply IH; assumption].
+Qed.
+
+Lemma removelast_app_last : forall (l : list Q) T, l <> [] -> last l 0 == T -> Forall2 Qeq (removelast l ++ [T]) l.
+Proof.
+  intros l T Hne E. rewrite (app_removelast_last 0 Hne) at 2.
+  apply Forall2_Qeq_app; [|constructor; [symmetry; assumption | constructor]].
+  clear. induction (removelast l); constructor; [reflexivity | assumption].
+Qed.
+
+Lemma map_fst_combine {A B} : forall (a : list A) (b : list B), (length a <= length b)%nat -> map fst (combine a b) = a.
+Proof.
+  induction a as [|x a IH]; intros b H; [reflexivity|]. destruct b as [|y b]; [simpl in H; lia|].
+  simpl. rewrite IH by (simpl in H; lia). reflexivity.
+Qed.
+
+(* C15_cap_whole_path (F-C15-1 repaired): the path the max-step simulators return - 0, the refined times, the maturity - has
+   EVERY step <= eps, the step to the maturity and the steps of a path without jumps included *)
+Theorem capped_path_whole N eps T times vals : 0 < eps -> eps < T -> length vals = length times ->
+  let l := combine (gaps (times ++ [T])) (vals ++ [last vals 0]) in
+  gaps_le (inject_Z (Z.of_nat (S N)) * eps) l ->
+  let p := capped_path N eps T times vals in
+  hd 1 (fst p) = 0 /\ last (fst p) 0 = T
+  /\ Forall (fun g => g <= eps) (gaps (tl (fst p)))
+  /\ exists r, Refines 0 l r
+        /\ Forall2 Qeq (gaps (tl (fst p))) (map fst r)
+        /\ snd p = assemble_values (removelast (map snd r)).
+Proof.
+  intros He HT Hlen l Hle p.
+  destruct (build_finer_grid_cap 0 N eps T (times ++ [T]) (vals ++ [last vals 0]) He HT Hle) as [Hg [r [HR [H2 H3]]]].
+  set (tv := build_finer_grid 0 N eps T (times ++ [T]) (vals ++ [last vals 0])) in *.
+  assert (Hp : fst p = 0 :: removelast (fst tv) ++ [T]) by reflexivity.
+  assert (Hl : map fst l = gaps (times ++ [T])).
+  { unfold l. apply map_fst_combine. unfold gaps.
+    assert (Hgl : forall (x : list Q) pr, length (gaps_from pr x) = length x) by (induction x; intro; simpl; auto).
+    rewrite Hgl, !app_length. simpl. lia. }
+  assert (Hne : fst tv <> []).
+  { intro Hc. rewrite Hc in H2. unfold gaps in H2. cbn [gaps_from] in H2. destruct r as [|r0 r']; [|inversion H2].
+    assert (Hln : l <> []).
+    { unfold l, gaps. destruct times; destruct vals; simpl; discriminate. }
+    assert (Hr : forall pv (x : list (Q * Q)), Refines pv x [] -> x = []) by (intros pv x Hx; inversion Hx; reflexivity).
+    apply Hln, (Hr _ _ HR). }
+  assert (Hlast : last (fst tv) 0 == T).
+  { assert (Ht : qsum (gaps (fst tv)) == last (fst tv) 0 - 0) by apply gaps_total.
+    assert (Hs : qsum (gaps (fst tv)) == qsum (map fst r)).
+    { clear -H2. induction H2 as [|x y a b E H IH]; [reflexivity|]. cbn [qsum]. rewrite E, IH. reflexivity. }
+    rewrite Hs, (Refines_total 0 l r HR), Hl in Ht. unfold gaps in Ht. rewrite gaps_total in Ht.
+    rewrite last_last in Ht. lra. }
+  repeat split.
+  - rewrite Hp. rewrite app_comm_cons. apply last_last.
+  - rewrite Hp. cbn [tl]. apply (Forall2_le_transfer eps _ (gaps (fst tv))); [|assumption].
+    unfold gaps. apply gaps_from_proper; [apply removelast_app_last; assumption | reflexivity].
+  - exists r. repeat split; [assumption | |].
+    + rewrite Hp. cbn [tl]. 
+      assert (Hq : Forall2 Qeq (gaps (removelast (fst tv) ++ [T])) (gaps (fst tv)))
+        by (unfold gaps; apply gaps_from_proper; [apply removelast_app_last; assumption | reflexivity]).
+      clear -Hq H2. revert H2. generalize (map fst r). revert Hq. generalize (gaps (fst tv)). generalize (gaps (removelast (fst tv) ++ [T])).
+      induction 1 as [|x y a b E H IH]; intros m Hm; inversion Hm; subst; constructor; [rewrite E; assumption | apply IH; assumption].
+    + unfold p, capped_path, refine_to_maturity. cbn [fst snd]. fold tv. rewrite H3. reflexivity.
 Qed.
 
 (* lengths: with as many increments as offsets in every product interval, times and values of the assembled path have the same length *)
